@@ -22,6 +22,7 @@ import (
 	"strconv"
 	"strings"
 	"sync"
+	"syscall"
 	"time"
 
 	"github.com/coder/websocket"
@@ -54,8 +55,10 @@ type c44Log struct {
 	closed map[int]bool // clients the harness has disconnected: later receptions are not recorded
 	last   map[int]int  // last version received per client
 	notify chan struct{}
-	lastEv time.Time     // time of the latest event other than poll markers
-	firstSignal time.Duration // latency of the first compile (start of the session to its broadcast)
+	lastEv time.Time // time of the latest event other than poll markers
+	polls  int       // poll markers inserted so far
+	nsig   int       // broadcasts seen so far
+	jitter func()    // optional: called (outside the lock) for every line the watcher logs
 }
 
 func c44NewLog() *c44Log {
@@ -76,12 +79,19 @@ func (l *c44Log) add(e c44Ev, f func()) {
 	if e.Kind == "disconnect" {
 		l.closed[e.C] = true
 	}
-	e.Ms = time.Since(l.t0).Milliseconds()
-	if e.Kind != "poll" {
-		l.lastEv = time.Now()
+	// watchLoop's poll ticker (10 s period, created after this log) may call requestCompile.  Its k-th tick
+	// cannot come before t0 + 10k s, and anything it causes is recorded later than that by this same
+	// clock: inserting the k-th marker in front of the first event recorded after t0 + 10k - 1 s puts it
+	// before every effect of the k-th tick, by causality and not by a timer of the harness.
+	since := time.Since(l.t0)
+	for since > time.Duration(10*(l.polls+1)-1)*time.Second {
+		l.polls++
+		l.evs = append(l.evs, c44Ev{Kind: "poll", Ms: since.Milliseconds()})
 	}
-	if e.Kind == "signal" && l.firstSignal == 0 {
-		l.firstSignal = time.Since(l.t0)
+	e.Ms = since.Milliseconds()
+	l.lastEv = time.Now()
+	if e.Kind == "signal" {
+		l.nsig++
 	}
 	l.evs = append(l.evs, e)
 	if f != nil {
@@ -187,6 +197,12 @@ var c44BroadcastRe = regexp.MustCompile(`broadcasting update to (\d+) client`)
 var c44ListenRe = regexp.MustCompile(`listening on http://([0-9.:]+)`)
 
 func (w *c44LogWriter) Write(p []byte) (int, error) {
+	if w.log != nil && w.log.jitter != nil {
+		if os.Getenv("VERIF_DEBUG") != "" {
+			fmt.Fprintf(os.Stderr, "c44log %dus: %.70q\n", time.Since(w.log.t0).Microseconds(), p)
+		}
+		w.log.jitter()
+	}
 	if w.log != nil {
 		if m := c44BroadcastRe.FindSubmatch(p); m != nil {
 			n, _ := strconv.Atoi(string(m[1]))
@@ -222,8 +238,8 @@ func c44WorkDir(tag string) string {
 	return d
 }
 
-func c44State(dir string, args []string, lw io.WriteCloser) *xmain.State {
-	env := xos.NewEnv([]string{"HOME=" + dir, "PATH=" + os.Getenv("PATH"), "BROWSER=0"})
+func c44State(dir string, args []string, lw io.WriteCloser, extraEnv ...string) *xmain.State {
+	env := xos.NewEnv(append([]string{"HOME=" + dir, "PATH=" + os.Getenv("PATH"), "BROWSER=0"}, extraEnv...))
 	return &xmain.State{
 		Name:   "d2",
 		Stdin:  strings.NewReader(""),
@@ -244,9 +260,19 @@ type c44Server struct {
 }
 
 // c44Start runs `d2 --watch --browser=0 --host 127.0.0.1 --port 0 in.d2 out.svg` through d2cli.Run.
-func c44Start(dir string, hl *c44Log) (*c44Server, error) {
+// c44Pad: a shape with a very long class name appended to the input (never rewritten: versions overwrite only the head of the
+// file), which makes every compile result that many bytes bigger, so that the server's write to a client
+// that does not read blocks in the kernel.
+func c44Pad(n int) []byte {
+	if n == 0 {
+		return nil
+	}
+	return []byte("z: {class: \"" + strings.Repeat("padd", n/4) + "\"}\n")
+}
+
+func c44Start(dir string, hl *c44Log, pad int) (*c44Server, error) {
 	in := filepath.Join(dir, "in.d2")
-	if err := os.WriteFile(in, c44Content(1), 0o644); err != nil {
+	if err := os.WriteFile(in, append(c44Content(1), c44Pad(pad)...), 0o644); err != nil {
 		return nil, err
 	}
 	lw := &c44LogWriter{addr: make(chan string, 1), log: hl}
@@ -266,9 +292,9 @@ func c44Start(dir string, hl *c44Log) (*c44Server, error) {
 	case err := <-s.done:
 		cancel()
 		return nil, fmt.Errorf("watcher ended before listening: %v", err)
-	case <-time.After(20 * time.Second):
+	case <-time.After(180 * time.Second):
 		cancel()
-		return nil, fmt.Errorf("watcher did not start listening")
+		return nil, fmt.Errorf("watcher did not start listening within 180s")
 	}
 	return s, nil
 }
@@ -294,7 +320,7 @@ func c44Dial(addr string, pre net.Conn) (*websocket.Conn, int, error) {
 			return pre, nil
 		}
 	}
-	ctx, cancel := context.WithTimeout(context.Background(), 10*time.Second)
+	ctx, cancel := context.WithTimeout(context.Background(), 120*time.Second)
 	defer cancel()
 	c, resp, err := websocket.Dial(ctx, "ws://"+addr+"/watch", &websocket.DialOptions{HTTPClient: &http.Client{Transport: tr}})
 	code := 0
@@ -331,28 +357,16 @@ func c44Session(r *Rng, sid int, class string) Case {
 	dir := c44WorkDir(fmt.Sprintf("s%d", sid))
 	defer os.RemoveAll(dir)
 	log := c44NewLog()
-	srv, err := c44Start(dir, log)
+	pad := 0
+	if class == "slow-client" {
+		pad = 4 << 20
+	}
+	srv, err := c44Start(dir, log, pad)
 	if err != nil {
 		cs.ImplFail = []string{err.Error()}
 		cs.Coq = "Case []"
 		return cs
 	}
-	// watchLoop's poll ticker (10 s) may call requestCompile: tell the model when that becomes possible
-	pollStop := make(chan struct{})
-	defer close(pollStop)
-	go func() {
-		t := time.NewTimer(9 * time.Second)
-		defer t.Stop()
-		for {
-			select {
-			case <-t.C:
-				log.add(c44Ev{Kind: "poll"}, nil)
-				t.Reset(10 * time.Second)
-			case <-pollStop:
-				return
-			}
-		}
-	}()
 	var readers sync.WaitGroup
 	clients := map[int]*c44Client{}
 	nextID := 1
@@ -390,9 +404,75 @@ func c44Session(r *Rng, sid int, class string) Case {
 	}
 	sleep := func(ms int) { time.Sleep(time.Duration(ms) * time.Millisecond) }
 
+	// waitSignals blocks until the watcher has logged n broadcasts in total (observed, not timed)
+	waitSignals := func(n int) bool {
+		deadline := time.Now().Add(120 * time.Second)
+		for {
+			log.mu.Lock()
+			k := log.nsig
+			log.mu.Unlock()
+			if k >= n {
+				return true
+			}
+			if time.Now().After(deadline) {
+				return false
+			}
+			select {
+			case <-log.notify:
+			case <-time.After(50 * time.Millisecond):
+			}
+		}
+	}
+
 	nsteps := r.Range(5, 9)
 	maxClients := 3
 	switch class {
+	case "slow-client":
+		// A browser that is slow to read (tiny receive buffer, not reading) while several compiles
+		// finish: its handler stays blocked in the write of a large result; a normal client next to it.
+		connect()
+		script = append(script, "c")
+		slowID := nextID
+		nextID++
+		log.add(c44Ev{Kind: "attempt", C: slowID}, nil)
+		d := net.Dialer{Timeout: 60 * time.Second, Control: func(network, address string, rc syscall.RawConn) error {
+			return rc.Control(func(fd uintptr) { syscall.SetsockoptInt(int(fd), syscall.SOL_SOCKET, syscall.SO_RCVBUF, 2048) })
+		}}
+		var slow *c44Client
+		if raw, err := d.Dial("tcp", srv.addr); err == nil {
+			conn, code, err := c44Dial(srv.addr, raw)
+			if err != nil {
+				if code != 0 {
+					log.add(c44Ev{Kind: "res", C: slowID, V: code}, nil)
+				}
+			} else {
+				slow = &c44Client{id: slowID, conn: conn}
+				clients[slowID] = slow
+				log.add(c44Ev{Kind: "res", C: slowID, V: 101}, nil)
+			}
+		}
+		script = append(script, "c(slow)")
+		nb := r.Range(2, 3)
+		if waitSignals(1) {
+			for i := 0; i < nb; i++ {
+				log.mu.Lock()
+				k := log.nsig
+				log.mu.Unlock()
+				write()
+				script = append(script, "w", "wait-broadcast")
+				if !waitSignals(k + 1) {
+					break
+				}
+				if r.Bool() {
+					sleep(r.Range(0, 60))
+				}
+			}
+		}
+		if slow != nil {
+			readers.Add(1)
+			go log.readLoop(slow, &readers)
+			script = append(script, "slow-starts-reading")
+		}
 	case "burst":
 		// many writes faster than a compile: coalescing
 		connect()
@@ -462,6 +542,7 @@ func c44Session(r *Rng, sid int, class string) Case {
 	hardDeadline := waitStart.Add(150 * time.Second)
 	var refMax time.Duration
 	refRuns := 0
+	stuckSeen := false
 	for {
 		log.mu.Lock()
 		ok := true
@@ -480,14 +561,28 @@ func c44Session(r *Rng, sid int, class string) Case {
 			limit = 2500 * time.Millisecond
 		}
 		if refRuns > 0 && sinceEv > limit && time.Since(waitStart) > limit {
-			break
+			if stuckSeen {
+				break // still nothing after one more full reference compile: give up
+			}
+			stuckSeen = true
+		} else {
+			stuckSeen = false
+		}
+		if time.Since(waitStart) < 1200*time.Millisecond {
+			// on a quiet machine delivery is a matter of a few hundred ms: look again before
+			// spending CPU on reference compiles
+			select {
+			case <-log.notify:
+			case <-time.After(25 * time.Millisecond):
+			}
+			continue
 		}
 		if d := c44RefCompile(dir, version); d > refMax {
 			refMax = d
 		}
 		refRuns++
 	}
-	sleep(120) // let a possible extra compile / duplicate delivery arrive before declaring quiescence
+	sleep(50) // a possible duplicate delivery may still arrive; it is recorded if it does
 	log.add(c44Ev{Kind: "quiesce"}, nil)
 
 	// end of session: stop the watcher, it must return
@@ -498,8 +593,8 @@ func c44Session(r *Rng, sid int, class string) Case {
 	srv.cancel()
 	select {
 	case <-srv.done:
-	case <-time.After(45 * time.Second):
-		cs.ImplFail = append(cs.ImplFail, "d2cli.Run did not return within 45s of cancelling its context")
+	case <-time.After(240 * time.Second):
+		cs.ImplFail = append(cs.ImplFail, "d2cli.Run did not return within 240s of cancelling its context")
 	}
 	readers.Wait()
 
@@ -522,7 +617,15 @@ func c44Session(r *Rng, sid int, class string) Case {
 	}
 	cs.Coq = "Case " + c44CoqHist(evs)
 	cs.Input = map[string]any{"script": strings.Join(script, " ")}
-	cs.Impl = map[string]any{"history": evs, "ref_compiles": refRuns, "ref_compile_max_ms": refMax.Milliseconds()}
+	undelivered := false
+	log.mu.Lock()
+	for id := range clients {
+		if log.last[id] != version {
+			undelivered = true
+		}
+	}
+	log.mu.Unlock()
+	cs.Impl = map[string]any{"history": evs, "ref_compiles": refRuns, "ref_compile_max_ms": refMax.Milliseconds(), "undelivered": undelivered}
 	cs.Nontrivial = nrecv >= 1 && nchg >= 1
 	cs.Key = fmt.Sprintf("%d:%s", sid, strings.Join(script, ""))
 	return cs
@@ -556,10 +659,13 @@ func sortInts(a []int) {
 }
 
 func c44Gen(r *Rng, tier string, n int) []Case {
-	classes := []string{"burst", "late-join", "random", "random", "burst", "random", "late-join"}
+	classes := []string{"burst", "slow-client", "late-join", "random", "random", "burst", "random", "late-join"}
 	type job struct {
 		r     *Rng
 		class string
+	}
+	if c := os.Getenv("VERIF_C44_CLASS"); c != "" { // experiments: only sessions of one class
+		classes = []string{c}
 	}
 	jobs := make([]job, n)
 	for i := range jobs {
@@ -580,7 +686,22 @@ func c44Gen(r *Rng, tier string, n int) []Case {
 					out[i] = Case{Class: jobs[i].class, Coq: "Case []", ImplFail: []string{fmt.Sprintf("panic in session: %v", e)}}
 				}
 			}()
-			out[i] = c44Session(jobs[i].r, i, jobs[i].class)
+			// A session that ends with a client not holding the latest version (or with a harness
+			// time-out) rests on "nothing happened for a long time", which a loaded machine can fake.
+			// It is run again with the same script and reported only if it fails every time.
+			for attempt := 0; attempt < 3; attempt++ {
+				rr := *jobs[i].r
+				c := c44Session(&rr, i*10+attempt, jobs[i].class)
+				m, _ := c.Impl.(map[string]any)
+				und, _ := m["undelivered"].(bool)
+				if m != nil {
+					m["attempt"] = attempt + 1
+				}
+				out[i] = c
+				if !und && len(c.ImplFail) == 0 {
+					break
+				}
+			}
 		}(i)
 	}
 	wg.Wait()
